@@ -613,8 +613,10 @@ def _cap_records(args):
             mk['mask_freqs'] = [.3 / 2 ** i for i in range(listlen)]
         else:
             mk['mask_freqs'] = mode
-        unc = core.guarded(S.mask_sift, x, max_imfs=9, ret_mask_freq=True, _timeout=60, **mk)
-        if not isinstance(unc, str):
+        # the reference run: mask_sift has no "no cap" (max_imfs defaults to 9), so the reference is a cap far beyond the
+        # natural number of components (a 9-component reference was itself capped for long noise signals: false alarm)
+        unc = core.guarded(S.mask_sift, x, max_imfs=30, ret_mask_freq=True, _timeout=90, **mk)
+        if not isinstance(unc, str) and unc[0].shape[1] < 30:
             unc, freqs = unc
             nu = unc.shape[1]
             for cap in range(1, min(nu, 9) + 3):
